@@ -22,6 +22,7 @@ import random
 from fractions import Fraction as F
 
 import numpy as np
+from frozendict import frozendict
 
 from .. import gen
 from .. import pomdp_build as pb
@@ -102,9 +103,45 @@ TEQ = 2
 # 1/(1-g) <= 10 (= 1.05 units) + msdm's own acceptance window isclose(rtol=1e-5) on values |V| <= 20 is NOT
 # granted -> 4 units (3.8e-6)
 TMONO = 4
+# rows of a learnt controller come out of an LP / a softmax in floating point: "is a probability distribution" is
+# judged with the window msdm's own evaluator applies before it accepts a controller (torch.allclose defaults on the
+# row sums: 1e-8 + 1e-5) - a row that stochastic_fsc_policy_evaluation_exact itself accepts as a distribution is not
+# called a violation; the same window bounds how negative an entry may be (LP feasibility tolerances 1e-7..1e-8
+# divided by an action probability that msdm only replaces when it is below 1e-8).  1e-5 * 2^20 = 10.5 -> 11 units.
+TROW = 11
 
 LABELS = ["int", "str", "tuple", "frozendict", "mixed"]
 DISTS = ["dict", "dict_zeros", "det", "uniform"]
+# labels that are falsy in Python (distinct, hashable, mutually unsortable).  Observations: pomdp_build's kind "falsy"
+# (None, '', (), 0 - None being the common 'no signal' label).  States and actions: the private kind "falsy0"
+# (0, '', (), frozendict()) without None, because run_on's own API gives None a meaning there (initial_state=None =
+# 'draw one'; action None = closing record of a trajectory).
+SLABELS = LABELS + ["falsy0"]
+OLABELS = LABELS + ["falsy", "falsy"]
+_FALSY0 = [0, "", (), frozendict()]
+
+
+def _labels(kind, n, prefix="s", rng=None):
+    """build.make_labels extended with the kind "falsy0" (private to this driver)."""
+    if kind == "falsy0":
+        pool = list(_FALSY0) + [(prefix, i) for i in range(max(0, n - len(_FALSY0)))]
+        if rng is not None:
+            rng.shuffle(pool)
+        return pool[:n]
+    return _base_make_labels(kind, n, prefix, rng)
+
+
+_base_make_labels = pb.make_labels
+
+
+def build_pomdp(m, **kw):
+    """pomdp_build.build_pomdp with the extended label kinds (the shared module is left as it is: its label factory
+    is swapped only for the duration of the call)."""
+    pb.make_labels = _labels
+    try:
+        return pb.build_pomdp(m, **kw)
+    finally:
+        pb.make_labels = _base_make_labels
 
 
 # ==============================================================================================================
@@ -216,7 +253,7 @@ def make_case(rng, tier, want):
                       ghost=ghost, ID=rng.choice([2, 3, 4]), obs_kind=obs_kind, init_on_abs=0.2, sparse=0.3)
     by_action = rng.random() < 0.7
     m.update(rand_controller(rng, m["K"], m["NO"], NN, QD, ED, rng.choice([2, 3, 4]), by_action=by_action))
-    rep = dict(labels=rng.choice(LABELS), alabels=rng.choice(LABELS), olabels=rng.choice(LABELS),
+    rep = dict(labels=rng.choice(SLABELS), alabels=rng.choice(SLABELS), olabels=rng.choice(OLABELS),
                explicit_list=rng.random() < 0.5, dist=rng.choice(DISTS), odist=rng.choice(DISTS),
                arr=rng.choice(["torch", "numpy"]), eta3=(not by_action) and rng.random() < 0.7,
                with_init=rng.random() < 0.8)
@@ -318,7 +355,7 @@ def make_tiny_case(rng, tier):
         return None
     m.update(psie=psie, iotae=iotae, machs=["tiny"], full=0, open=0)
     m["D"] = tree_depth(K * NO, 70 if tier == "quick" else 160)
-    rep = dict(labels=rng.choice(LABELS), alabels=rng.choice(LABELS), olabels=rng.choice(LABELS),
+    rep = dict(labels=rng.choice(SLABELS), alabels=rng.choice(SLABELS), olabels=rng.choice(OLABELS),
                explicit_list=rng.random() < 0.5, dist=rng.choice(DISTS), odist=rng.choice(DISTS),
                arr=rng.choice(["torch", "numpy"]), eta3=False, with_init=True)
     listed = pb.listed_states(m, rep["explicit_list"])
@@ -484,7 +521,7 @@ class World:
         mb = case.get("m_build", self.m)
         rng = random.Random(digest([self.m, self.rep]))
         keys = ("labels", "alabels", "olabels", "explicit_list", "dist", "odist")
-        self.B = B = pb.build_pomdp(mb, rng=rng, **{k: self.rep[k] for k in keys})
+        self.B = B = build_pomdp(mb, rng=rng, **{k: self.rep[k] for k in keys})
         B.m = self.m
         self.p = p = B.pomdp
         self.sl = list(p.state_list)
@@ -1090,7 +1127,7 @@ def make_learner_case(rng, ghost_p=0.2):
     m = pb.rand_pomdp(rng, n_na=n_na, n_abs=n_abs, K=rng.choice([1, 2, 2, 2, 3, 3]), NO=rng.choice([1, 2, 2, 2, 3]),
                       PD=rng.choice([2, 4]), OD=rng.choice([2, 4]), GN=GN, GD=GD, ghost=ghost, ID=rng.choice([2, 4]),
                       obs_kind=rng.choice(["random"] * 6 + ["single", "identity"]), init_on_abs=0.15)
-    rep = dict(labels=rng.choice(LABELS), alabels=rng.choice(LABELS), olabels=rng.choice(LABELS),
+    rep = dict(labels=rng.choice(SLABELS), alabels=rng.choice(SLABELS), olabels=rng.choice(OLABELS),
                explicit_list=True if not gen.ghost_closed(m) else rng.random() < 0.5,
                dist=rng.choice(DISTS), odist=rng.choice(DISTS), arr="numpy", eta3=False, with_init=True)
     m.update(NN=1, QD=1, psi=[[1] + [0] * (m["K"] - 1)], ED=1, eta=[[[[1]] * m["NO"]] * m["K"]], ND=1, iota=[1],
@@ -1098,6 +1135,14 @@ def make_learner_case(rng, ghost_p=0.2):
     listed = pb.listed_states(m, rep["explicit_list"])
     m["lst"] = [1 if s in listed else 0 for s in range(m["N"])]
     return {"m": m, "rep": rep}
+
+
+def cvxpy_has_shipped_solver():
+    try:
+        import cvxpy
+        return "ECOS" in cvxpy.installed_solvers()
+    except Exception:                                                # noqa: BLE001
+        return False
 
 
 def run_learner(ctx, case, cfg, tamper=None):
@@ -1117,7 +1162,15 @@ def run_learner(ctx, case, cfg, tamper=None):
     try:
         if cfg["kind"] == "bpi":
             base = bpi.improve_node_cvxpy if cfg["fn"] == "cvxpy" else bpi.improve_node_matrix_constraint
-            kw = {"solver": "CLARABEL"} if cfg["fn"] == "cvxpy" else {}
+            kw = {}
+            if cfg["fn"] == "cvxpy" and not cvxpy_has_shipped_solver():
+                # improve_node_cvxpy is configured for the solver ECOS; with a substitute interior-point solver the
+                # action probabilities it divides by are only zero up to that solver's tolerance, and msdm's own
+                # allclose assertions / the rows then reflect the substitute, not msdm (false alarm corrected
+                # 2026-10-03: CLARABEL run, entries of -5e-7 and an AssertionError inside improve_node_cvxpy)
+                ctx.skip("improve_node_cvxpy: the solver it is configured for (ECOS) is not installed")
+                ctx.evaluations -= 1
+                return None
 
             def improve(pomdp, V, node):
                 if node == 0:
@@ -1176,7 +1229,7 @@ def run_learner(ctx, case, cfg, tamper=None):
 
     def proj(t):
         return [[q(t[n, W.col[s]]) for s in W.listed] for n in range(t.shape[0])]
-    run = {"kind": cfg["kind"], "S": SV, "teq": TEQ, "tmono": TMONO, "rows": rows,
+    run = {"kind": cfg["kind"], "S": SV, "teq": TEQ, "tmono": TMONO, "trow": TROW, "rows": rows,
            "rep": q(rep_value), "cut": q(at_init(vals[True])), "uncut": q(at_init(vals[False])),
            "rtab": proj(rtab), "ctab": table(vals[True]), "utab": table(vals[False]),
            "tabs": ([proj(t) for t in tabs] + [proj(rtab)]) if cfg["kind"] == "bpi" else []}
